@@ -234,6 +234,25 @@ pub fn judge_plan(
         let r = run_prepared(p, &FaultPlan::default(), Chunking::NONE);
         stats.compiled(&r);
         stats.inc("recoveries_checked");
+        // ... and so does an unrelated stylesheet (state left behind need not hit the same input)
+        if CANARY_TICK.with(|t| {
+            let v = t.get();
+            t.set(v + 1);
+            v % 4 == 0
+        }) {
+            let (want, got) = canary();
+            stats.inc("canaries_checked");
+            if want != got {
+                return (
+                    Judgement::fail(
+                        "no_recovery",
+                        format!("{sig} canary=1"),
+                        format!("after a failed compilation an unrelated stylesheet with a working loader gives {} instead of {}", got.short(), want.short()),
+                    ),
+                    r,
+                );
+            }
+        }
         if r.res != base.res {
             return (
                 Judgement::fail(
@@ -250,6 +269,37 @@ pub fn judge_plan(
         }
     }
     (Judgement::Pass, o)
+}
+
+thread_local! {
+    static CANARY_TICK: std::cell::Cell<u64> = const { std::cell::Cell::new(0) };
+}
+
+/// An unrelated four-file stylesheet using every load kind: (what it gave when this process first
+/// compiled it, what it gives now).
+fn canary() -> (Res, Res) {
+    static FIRST: OnceLock<Res> = OnceLock::new();
+    let mut fs = crate::simfs::SimFs::new();
+    fs.add_file("k/root.scss", "@use \"sass:meta\";\n@use \"a\" as n;\n@import \"sub/b\";\n@include meta.load-css(\"c\");\nr { v: n.$v; w: $w; }\n");
+    fs.add_file("k/_a.scss", "@forward \"sub/d\";\n$v: 1;\na { b: c; }\n");
+    fs.add_file("k/sub/b.scss", "$w: 2;\n.toolbar .btn-#{$w} { x: y; }\n");
+    fs.add_file("k/c/_index.scss", "c { d: e; }\n");
+    fs.add_file("k/sub/d.css", "d { e: f; }\n");
+    let data = fs.file("k/root.scss").expect("canary root");
+    let store = Rc::new(crate::simfs::FsStore { fs, bases: vec!["k".to_string()] });
+    let plan = FaultPlan::default();
+    let now = run_job(&Job {
+        store,
+        root_name: "root.scss",
+        root_canon: "k/root.scss",
+        root_data: data,
+        fmt: Fmt::default(),
+        plan: &plan,
+        chunk: Chunking::NONE,
+        budget: 1000,
+    })
+    .res;
+    (FIRST.get_or_init(|| now.clone()).clone(), now)
 }
 
 /// Baseline (twice, must be stable and must not panic).
